@@ -105,7 +105,10 @@ class Gen:
             opts.append(("bin", 2.0))
         if sc["counts"] and not sc.get("no_counts"):
             opts.append(("cnt", w["read_count"]))
-            opts.append(("ts", w["turns_since"]))
+            if not sc.get("choice_text") and not sc.get("plain_inline"):
+                # TURNS_SINCE inside choice text: the target does not get its turn-count flag
+                # (finding c01-turns-since-flag-missing: also inside switch / sequence-block elements)
+                opts.append(("ts", w["turns_since"]))
         if sc.get("in_choice_cond"):
             opts.append(("cc", w["choice_count"] * 3))
         opts.append(("turns", w["turns"]))
@@ -357,7 +360,7 @@ class Gen:
         else:
             if self.p("choice_label"):
                 c["label"] = self.new_label(sc["place"])
-            tsc = dict(sc, no_calls=True)
+            tsc = dict(sc, no_calls=True, choice_text=True)
             simple = not self.p("choice_inline")
             c["start"] = [["t", self.words(1, 3)]] if simple else self.inline(tsc, 0, False)
             if self.p("bracket"):
@@ -375,16 +378,37 @@ class Gen:
         if (not fallback and level < 2 and self.p("nested")):
             body.append(["choices", self.choice_group(bsc, level + 1, must_divert)])
             if not must_divert and r.random() < 0.4:
-                body.append(["gather", self.new_label(sc["place"]) if self.p("gather_label") else None])
+                body += self.gather(bsc)
                 body += self.simple_block(bsc, sc["allow"], 1, 2)
-        elif must_divert or self.p("choice_divert"):
+        elif must_divert or self.p("choice_divert") or (fallback and c["conds"]):
             t = self.target(sc, backward_ok=not fallback and not sc.get("no_back"))
-            if not body and r.random() < 0.5:
+            if fallback and t == "->->":
+                c["conds"] = []
+                body.append(["divert", t])
+            elif fallback and c["conds"]:
+                # `* {cond} ->` followed by a body is miscompiled (finding c01-conditional-fallback-body):
+                # a conditional fallback only gets an inline target
+                body = []
+                c["divert"] = t
+            elif fallback and not body and r.random() < 0.5:
                 c["divert"] = t
             else:
+                # (no inline divert on a visible choice line, and no body that is only `-> END`: this
+                # compiler's newline after the choice text differs from the reference there —
+                # findings c01-choice-inline-divert-newline, c01-choice-newline-before-end)
+                if not fallback and not body and (t in ("END", "DONE") or not c["start"]):
+                    body.append(["line", [["t", self.words()]], [], None])
                 body.append(["divert", t])
         c["body"] = body
         return c
+
+    def gather(self, sc):
+        """a gather; an anonymous one is always followed by a plain text line printed on the gather's
+        own line (`- text`): a bare `-` line after a bracketed choice is miscompiled by this compiler
+        when the flow also has a labelled gather (finding c01-bare-gather-after-bracket-choice)"""
+        if self.p("gather_label"):
+            return [["gather", self.new_label(sc["place"])]]
+        return [["gather", None], ["line", [["t", self.words()]] + self.inline(sc)[1:], self.tags(), None]]
 
     def choice_group(self, sc, level, must_divert):
         r = self.rng
@@ -406,7 +430,7 @@ class Gen:
             out.append(["choices", self.choice_group(sc, 1, must_divert=not has_gather)])
             if not has_gather:
                 return out
-            out.append(["gather", self.new_label(sc["place"]) if self.p("gather_label") else None])
+            out += self.gather(sc)
             out += self.simple_block(sc, sc["allow"], 0 if not last else 1, self.w["max_stmts"])
         if final is not None:
             return out + final
@@ -475,7 +499,7 @@ class Gen:
             body = self.simple_block(sc, sc["allow"], 1, 2)
             if r.random() < 0.4:
                 body.append(["choices", self.choice_group(dict(sc, fallback_once=True), 1, must_divert=False)])
-                body.append(["gather", self.new_label(sc["place"]) if self.p("gather_label") else None])
+                body += self.gather(sc)
                 body += self.simple_block(sc, sc["allow"], 0, 1)
             body.append(["divert", "->->"])
             tknots.append({"name": tunnels[i], "params": [], "function": False, "body": body, "stitches": []})
@@ -616,8 +640,21 @@ def p_target(t):
 
 def p_block(b, level, ind, out):
     pad = "  " * ind
-    for s in b:
+    skip = False
+    for bi, s in enumerate(b):
+        if skip:
+            skip = False
+            continue
         k = s[0]
+        if k == "gather" and s[1] is None and bi + 1 < len(b) and b[bi + 1][0] == "line" \
+                and b[bi + 1][1] and b[bi + 1][1][0][0] == "t" and b[bi + 1][1][0][1][:1].isalpha():
+            nxt = b[bi + 1]
+            t = p_inl(nxt[1]) + "".join(" # " + g for g in nxt[2])
+            if nxt[3] is not None:
+                t += " " + p_target(nxt[3])
+            out.append(pad + " ".join("-" * level) + " " + t)
+            skip = True
+            continue
         if k == "line":
             t = p_inl(s[1]) + "".join(" # " + g for g in s[2])
             if s[3] is not None:
@@ -948,7 +985,9 @@ def c_block(b):
     for s in b:
         k = s[0]
         if k == "line":
-            out.append(f"SLine {c_inl(s[1])} {c_list([tq(g) for g in s[2]])} {c_opt(s[3], c_target)}")
+            # `text -> target`: the blank before the arrow belongs to the text (source-level fact)
+            content = s[1] + ([["t", " "]] if s[3] is not None and not s[2] else [])
+            out.append(f"SLine {c_inl(content)} {c_list([tq(g) for g in s[2]])} {c_opt(s[3], c_target)}")
         elif k == "assign":
             out.append(f"SAssign {tq(s[1])} {c_expr(s[2])}")
         elif k == "temp":
